@@ -124,7 +124,7 @@ var (
 
 func ueAny() ucElem[any] {
 	L := col.List[any](model.Notation())
-	return ucElem[any]{[]any{int64(1), "a", 1.5, true, uint64(7), 'x', nil, int64(-2), "b", L.MakeFromArray([]any{int64(1), "n"}), L.Make(), false}, anyLit}
+	return ucElem[any]{[]any{int64(1), "a", 1.5, true, uint64(0), 'x', nil, int64(0), "", L.MakeFromArray([]any{int64(1), "", nil}), L.Make(), false}, anyLit}
 }
 
 func execUC(c ucCase, _ core.Source) core.Result {
